@@ -281,6 +281,9 @@ MUTATORS = frozenset(['append', 'add', 'update', 'pop', 'setdefault', 'insert',
                       'sort', 'reverse', 'rotate'])
 
 
+GLOBAL_SITES = set()    # sites that touch a name declared `global`
+
+
 def find_write_lines(root):
     """(filename, lineno) of the last line of every statement under `root`
     that stores into an attribute, a subscript or a declared global, deletes
@@ -299,6 +302,20 @@ def find_write_lines(root):
                 tree = ast.parse(open(path).read())
             except Exception:
                 continue
+            # names some function declares `global`: module-level mutable
+            # state; every line that reads or writes one of them is a site
+            # (a check-then-use window on such a name has no store in it)
+            mod_globals = set()
+            for n in ast.walk(tree):
+                if isinstance(n, ast.Global):
+                    mod_globals.update(n.names)
+            if mod_globals:
+                for fnode in ast.walk(tree):
+                    if isinstance(fnode, ast.FunctionDef):
+                        for n in ast.walk(fnode):
+                            if isinstance(n, ast.Name) and n.id in mod_globals:
+                                out.add((path, n.lineno))
+                                GLOBAL_SITES.add((path, n.lineno))
             for fnode in ast.walk(tree):
                 if not isinstance(fnode, (ast.FunctionDef, ast.Lambda)):
                     continue
